@@ -52,6 +52,11 @@ def spec_strategy(methods=('nla', 'chic'), max_contigs=6, max_mols=14, extras=Tr
                 # another molecule of the same cell at the same cut (other UMI, other fragment ends): shares a hash group
                 src = mols[draw(st.integers(0, len(mols) - 1))]
                 mol.update(tid=src['tid'], site=src['site'], rev=src['rev'], cell=src['cell'])
+                if nc > 1 and draw(st.integers(0, 2)) == 0:
+                    # ... or the same coordinate, cell, strand and UMI on ANOTHER contig: a different molecule
+                    other = draw(st.integers(0, nc - 1))
+                    if other != src['tid'] and other not in empty and src['site'] < contigs[other][1] - 140:
+                        mol.update(tid=other, umi=src['umi'])
             elif mols and draw(st.integers(0, 3)) == 0:
                 # a molecule about half a buffer window (5000 bp) downstream of an earlier one: when it is read, only part
                 # of what is buffered around the earlier site may leave the buffer
